@@ -13,8 +13,8 @@ def own(name, script, finding):
 
 
 def run(tier, seed):
-    cfgs = ["three-ops", "dup-tag", "flush-self"] if tier == "quick" else \
-        ["three-ops", "dup-tag", "tag-reuse", "bad-frame", "flush-self", "flush-basic"]
+    cfgs = ["three-ops", "dup-tag", "flush-twice"] if tier == "quick" else \
+        ["three-ops", "dup-tag", "tag-reuse", "bad-frame", "flush-self", "flush-basic", "flush-twice", "flush-chain"]
     return connloop.run("C06", tier, seed, cfgs, own, RULE, 150 if tier == "quick" else None,
                         batch=(64, 10) if tier == "quick" else (64, 250))
 
